@@ -29,20 +29,29 @@ KANI = [{
         H("delta_apply_4_5_4", ["C07"], "bounded", "base 4, delta 5, target 4", functions=DELTA),
         H("delta_apply_4_6_5", ["C07"], "bounded", "base 4, delta 6, target 5", functions=DELTA),
         H("delta_apply_6_8_8", ["C07"], "bounded", "base 6, delta 8, target 8", tier="thorough", timeout=2400, mem_gb=16, functions=DELTA),
-        H("fanout_2", ["C09"], "bounded", "sorted tables of 2 ids (first 3 bytes symbolic)", functions=FAN[:1]),
-        H("fanout_4", ["C09"], "bounded", "sorted tables of 4 ids", functions=FAN[:1]),
-        H("fanout_6", ["C09"], "bounded", "sorted tables of 6 ids", tier="thorough", functions=FAN[:1]),
-        H("lookup_prefix_3_range", ["C09"], "bounded", "3 sorted ids, prefixes of 4..=7 hex digits, with candidate range", functions=FAN[1:]),
+        H("fanout_2", ["C09"], "bounded", "sorted tables of 2 ids (first 3 bytes symbolic)", tier="off", timeout=3000, functions=FAN[:1]),
+        H("fanout_4", ["C09"], "bounded", "sorted tables of 4 ids", tier="off", timeout=5400, functions=FAN[:1]),
+        H("fanout_6", ["C09"], "bounded", "sorted tables of 6 ids", tier="off", functions=FAN[:1]),
+        H("lookup_prefix_2_range", ["C09"], "bounded", "2 sorted ids, prefixes of 4..=7 hex digits, with candidate range", functions=FAN[1:]),
+        H("lookup_prefix_2_norange", ["C09"], "bounded", "2 sorted ids, without candidate range", functions=FAN[1:]),
+        H("lookup_prefix_3_range", ["C09"], "bounded", "3 sorted ids, prefixes of 4..=7 hex digits, with candidate range", tier="thorough", timeout=2400, functions=FAN[1:]),
         H("lookup_prefix_3_norange", ["C09"], "bounded", "3 sorted ids, prefixes of 4..=7 hex digits, without candidate range", functions=FAN[1:]),
-        H("lookup_prefix_4_range", ["C09"], "bounded", "4 sorted ids, with candidate range", functions=FAN[1:]),
-        H("lookup_prefix_4_norange", ["C09"], "bounded", "4 sorted ids, without candidate range", functions=FAN[1:]),
-        H("lookup_prefix_5_range", ["C09"], "bounded", "5 sorted ids, with candidate range", tier="thorough", timeout=2400, functions=FAN[1:]),
+        H("lookup_prefix_4_range", ["C09"], "bounded", "4 sorted ids, with candidate range", tier="thorough", timeout=5400, mem_gb=16, functions=FAN[1:]),
+        H("lookup_prefix_4_norange", ["C09"], "bounded", "4 sorted ids, without candidate range", tier="thorough", timeout=2400, functions=FAN[1:]),
+        H("lookup_prefix_5_range", ["C09"], "bounded", "5 sorted ids, with candidate range", tier="off", timeout=2400, functions=FAN[1:]),
     ],
 }]
+
+KANI.append({
+    "mode": "in_crate", "repo_crate": "gix-pack", "harness_prefix": "multi_index::write::verif_kani::kani_proofs::", "unit_suffix": "m",
+    "harnesses": [
+        H("midx_offsets_%d" % n, ["C09"], "bounded", "multi-pack index OOFF/LOFF chunks for %d object(s) with ANY u64 pack offsets and u32 pack ids, read back per git's documented format" % n,
+          tier="quick" if n <= 2 else "thorough", functions=["gix_pack::multi_index::chunk::offsets::write", "gix_pack::multi_index::chunk::large_offsets::num_large_offsets", "gix_pack::multi_index::chunk::large_offsets::write"]) for n in (1, 2, 3)],
+})
 
 ASSUMPTIONS = [
     ("C07", "delta::apply is specified for well-formed deltas only (ill-formed streams panic by design); 'any delta git produces' is covered as 'any delta in the documented format' within the stated sizes; the size==0 => 0x10000 copy needs a 64 KiB base and is outside the bounds"),
     ("C07", "zlib inflation of the delta and of the base is outside the contract (external crate)"),
     ("C09", "for indices written by git, fan_ok (fan[b] = number of ids with first byte <= b) is the file-format assumption; for indices gitoxide writes it is checked bounded on index::encode::fanout"),
-    ("C09", "recorded offset/CRC retrieval (pack_offset_at_index, crc32_at_index, 64-bit offset table) slices an mmap'ed File and is undecided"),
+    ("C09", "recorded offsets: the multi-pack index WRITER's offset chunks are checked against a reader written from git's format documentation (bounded in the number of objects, all u64 offsets). The readers themselves (pack_offset_at_index, pack_id_and_pack_offset_at_index, crc32_at_index) slice an mmap'ed File and the pack index V2 writer's offset table is inlined into index::encode::write_to (SHA-1, progress): both undecided"),
 ]
